@@ -38,7 +38,7 @@ CHECKS = {
  'C16': dict(
   text='Seeded search over create/combine/drop/GC histories of OBDDs with the collector driven by the simulator (between and inside operations, deferred reclamation through reference cycles, allocation churn); canonicity, unique-table and terminal invariants checked after every step against a truth-table model. Sampling, not proof.',
   ref='DESIGN.md 3.3',
-  note='Trusted: the truth-table model (2**n-bit integers), the diagram walker, CPython 3.12 gc/weakref semantics. Bounds: 4-6 variables, ~40-100 steps, <=10 live diagrams, 2-3 orderings.',
+  note='Trusted: the sparse truth-table model (support <=10 variables per function), the diagram walker, CPython 3.12 gc/weakref semantics. Bounds: universes of 4-120 variables, 40-400 steps, up to 160 live diagrams, 2-3 orderings (plus ordering storms).',
   tech=TECH + ' (simulator-scheduled garbage collection and deferred reclamation over seeded operation histories, truth-table reference model)'),
  'C19': dict(
   text='Seeded search over call histories with heterogeneous state/label types and the caller-side fault "mutate a returned set, then query again"; after every operation: no internal error on well-formed queries, result is a set of the structure\'s states, sets handed out earlier keep their value, later calls equal the pristine-process outcome and the structure equals its snapshot. Sampling, not proof.',
